@@ -136,7 +136,7 @@ def prep_irseq(job, wd):
     base = os.path.join(wd, 'h')
     cc = 'clang++-14' if job.lang == 'c++' else 'clang-14'
     flags = ['-O0', '-Xclang', '-disable-O0-optnone', '-S', '-emit-llvm', '-fno-discard-value-names']
-    if job.lang == 'c++': flags += ['-std=c++11', '-fno-exceptions', '-fno-rtti'] + job.cxxflags
+    if job.lang == 'c++': flags += ['-std=c++11', '-fno-exceptions', '-fno-rtti', '-I%s/src' % REPO] + job.cxxflags
     if job.cfg.get('text_patches'):
         must([cc, '-E', '-P'] + (['-std=c++11'] if job.lang == 'c++' else []) + CPPFLAGS + ['-DMYTH_WRAP=' + job.wrap] + job.defs + [src, '-o', base + '.pp.c'], 'clang -E')
         txt = open(base + '.pp.c').read()
@@ -155,6 +155,18 @@ def prep_irseq(job, wd):
         cmd = ['llvm-extract-14', '-S', '--delete'] + ['--func=' + d for d in dels] + [cur, '-o', base + '.1.ll']
         must(cmd, 'llvm-extract'); cur = base + '.1.ll'
     txt = open(cur).read()
+    # call-site wrapping: calls to F (outside verif_wrap_F itself) go to the harness function verif_wrap_F, which asserts and then calls the real F
+    for fn in job.cfg.get('wrap', []):
+        parts = re.split(r'(?m)^(define [^\n]*\n)', txt)
+        outp = []; inside = None
+        for p in parts:
+            if p.startswith('define '):
+                mm = re.search(r'@"?([A-Za-z0-9_.$]+)"?\(', p); inside = mm.group(1) if mm else None; outp.append(p)
+            elif inside is not None and inside != 'verif_wrap_' + fn:
+                outp.append(re.sub(r'(call [^\n]*?)@%s\(' % re.escape(fn), r'\1@verif_wrap_%s(' % fn, p))
+            else: outp.append(p)
+        txt = ''.join(outp)
+        if '@verif_wrap_%s(' % fn not in txt: raise BuildError('wrap: no call site of %s found' % fn)
     txt = re.sub(r'\bnoinline\b', '', txt); txt = re.sub(r'\boptnone\b', '', txt)
     open(base + '.2.ll', 'w').write(txt)
     pipe = job.cfg.get('opt_pipe', OPT_PIPE)
@@ -334,7 +346,7 @@ def load_known():
 
 # ------------------------------------------------------------------ replay artefacts
 def save_replay(pid, res, v):
-    d = os.path.join(VERIF, 'evidence', 'replays', pid)
+    d = os.path.join(VERIF, 'evidence', 'replays', pid) if not os.environ.get('VERIF_NOEVIDENCE') else os.path.join('/var/tmp/logs/replays', pid)
     os.makedirs(d, exist_ok=True)
     tag = re.sub(r'[^A-Za-z0-9_.-]', '_', res.job.name)
     path = os.path.join(d, tag + '.json')
@@ -443,8 +455,9 @@ def decide(pid, tier, jobs, level='model_checking', assumptions=(), functions_do
                             explanation=explanation, known_findings_matched=sorted(set(known_lines))),
               assumptions=list(assumptions), wall_s=round(wall, 1), violations=len(viol_lines))
     if functions_doc: ev['coverage']['functions_encoded'] = list(functions_doc)
-    os.makedirs(os.path.join(VERIF, 'evidence'), exist_ok=True)
-    json.dump(ev, open(os.path.join(VERIF, 'evidence', pid + '.json'), 'w'), indent=1)
+    if not os.environ.get('VERIF_NOEVIDENCE'):
+        os.makedirs(os.path.join(VERIF, 'evidence'), exist_ok=True)
+        json.dump(ev, open(os.path.join(VERIF, 'evidence', pid + '.json'), 'w'), indent=1)
     for r in results:
         print('  [%s] %-34s %-10s %6.1fs rss=%dMB props=%d %s' % (pid, r.job.name, r.status, r.wall_s, r.rss_kb // 1024, r.n_props, r.detail[:300].replace('\n', ' ')))
     for l in viol_lines: print(l)
